@@ -397,7 +397,8 @@ def _judge_file(ctx, case, base, path, records, old, events, tag):
 
 def _judge_str(ctx, wl, records):
     s = str(wl)
-    ctx.check("str_shows_records", s == "\n".join(records),
+    # "shows the same records": one record per line, in order; the statement does not fix the line separator
+    ctx.check("str_shows_records", isinstance(s, str) and s in ("\n".join(records), "\r\n".join(records)),
               lambda: {"records": records[:100], "str": s[:4000]})
 
 
